@@ -54,6 +54,7 @@ type FuncContract struct {
 	AlsoFor      []string  // properties for which only the explicitly tagged obligations of this function count
 	GlobalInvs   []*TypeDecl
 	Implementers bool // iface: every implementer in the loaded program is verified against this contract
+	Owns         []*Clause
 }
 
 // SinkDecl: every string parameter of every method of the receiver type must satisfy the predicate;
@@ -415,6 +416,17 @@ func (cs *ContractSet) parseLines(fname string, lines []struct {
 				cs.TypeDecls = append(cs.TypeDecls, td)
 			}
 			cur, curLemma = nil, nil
+		case "jsonfields":
+			// jsonfields pkg.Type // Cxx: the JSON encoding of the struct carries every field (exported, not tagged "-",
+			// names pairwise distinct): the side condition under which its encode/decode round trip can be assumed
+			full := rest
+			rest = stripComment(rest)
+			td := &TypeDecl{Kind: word, Name: strings.TrimSpace(rest), pkg: pkg, File: fname, Line: l.line}
+			if len(full) > len(rest) {
+				td.Props = rePropID.FindAllString(full[len(rest):], -1)
+			}
+			cs.TypeDecls = append(cs.TypeDecls, td)
+			cur, curLemma = nil, nil
 		case "typespec":
 			full := rest
 			rest = stripComment(rest)
@@ -491,6 +503,16 @@ func (cs *ContractSet) parseLines(fname string, lines []struct {
 			}
 			if c := mkClause(rest, l.line, len(cur.Captures)+1); c != nil {
 				cur.Captures = append(cur.Captures, c)
+			}
+		case "owns":
+			// owns <expr>: an object that counts as this call's own although it was not allocated by it (the request a
+			// release closure belongs to): fresh(x) holds for it, so declared interference treats it like a fresh object
+			if cur == nil {
+				cs.errf(fname, l.line, "owns outside a func block")
+				continue
+			}
+			if c := mkClause(rest, l.line, len(cur.Owns)+1); c != nil {
+				cur.Owns = append(cur.Owns, c)
 			}
 		case "alsofor":
 			if cur != nil {
